@@ -118,12 +118,11 @@ class BaseWorklist(list):
         scheme : int
             Number indicating the wash scheme (default: 1)
         """
+        if not isinstance(scheme, int) or isinstance(scheme, bool) or not scheme in {1, 2, 3, 4}:
+            raise ValueError("scheme must be either 1, 2, 3 or 4")
         if self.diti_mode:
             self.append("W;")
             return
-
-        if not isinstance(scheme, int) or isinstance(scheme, bool) or not scheme in {1, 2, 3, 4}:
-            raise ValueError("scheme must be either 1, 2, 3 or 4")
         self.append(f"W{scheme};")
         return
 
